@@ -330,4 +330,105 @@ theorem C03_fresh_start_statuses_item : ∀ (ev : Status) (a p c f i : Bool),
     (tkOnItemEvent .unset ev a p c f i).all? (fun s' => s' == .unset || ev.isStarting) = true := by
   decide +kernel
 
+/-! ### C10: cancellation is not turned into failure by the unreachable-join check -/
+
+/-- **C10** (table): a request for `canceling`/`canceled`, from any status and whatever the state
+    queries answer, leaves the status alone or moves it to `canceling`/`canceled`, and a status it
+    moves to never triggers the unreachable-join check -/
+theorem tbl_cancel_request_never_fails : ∀ (s req : Status) (a st p : Bool) (s' : Status),
+    (req = .canceling ∨ req = .canceled) → wfOnWorkflowEvent s req a st p = .ok s' →
+      (s' = s ∨ s' = .canceling ∨ s' = .canceled) ∧ (s' ≠ s → wfReqUnreachCheck s' = false) := by
+  decide +kernel
+
+/-- **C10** (table): while the workflow is `canceling`/`canceled`, no task report — whatever the
+    outcome — moves it anywhere else, and the unreachable-join check does not apply -/
+theorem tbl_canceling_reports_never_fail : ∀ (s ev : Status) (rem act : Bool) (oc : Outcome) (s' : Status),
+    (s = .canceling ∨ s = .canceled) → wfOnTaskEvent s ev rem act oc = .ok s' →
+      (s' = .canceling ∨ s' = .canceled) ∧ wfUnreachCheck s' = false := by
+  decide +kernel
+
+theorem Status.bne_self (s : Status) : (s != s) = false := by cases s <;> rfl
+
+/-- states whose status lies in `S` stay there -/
+def closedPre (S : Status → Prop) : Pre where
+  R c c' := S c.st.status → S c'.st.status
+  refl _ := id
+  trans h1 h2 := fun h => h2 (h1 h)
+
+theorem Rel.closed_of_keep {S : Status → Prop} {α} {m : M α} (h : Rel keepPre m) : Rel (closedPre S) m := by
+  constructor
+  intro c hs
+  rw [h.run c]
+  exact hs
+
+theorem wfProcessWorkflowEvent_cancel (s0 req : Status) (hreq : req = .canceling ∨ req = .canceled) :
+    Rel (closedPre fun s => s = s0 ∨ s = .canceling ∨ s = .canceled) (wfProcessWorkflowEvent req) := by
+  constructor
+  intro c hs
+  show _ ∨ _ ∨ _
+  unfold wfProcessWorkflowEvent
+  cases hw : wfOnWorkflowEvent c.st.status req c.st.hasActive c.st.hasStaged c.st.hasPaused with
+  | raise e => exact hs
+  | ok s' =>
+    obtain ⟨h1, h2⟩ := tbl_cancel_request_never_fails _ _ _ _ _ _ hreq hw
+    have hs' : s' = s0 ∨ s' = .canceling ∨ s' = .canceled := by
+      rcases h1 with h | h | h
+      · rw [h]; exact hs
+      · exact Or.inr (Or.inl h)
+      · exact Or.inr (Or.inr h)
+    dsimp only
+    by_cases hne : s' = c.st.status
+    · rw [if_neg]
+      · exact hs'
+      · rw [hne, Status.bne_self]
+        simp
+    · rw [if_neg]
+      · exact hs'
+      · rw [h2 hne]
+        simp
+
+/-- **C10**: a cancellation request (`canceling` or `canceled`), on any state — whatever is
+    staged, in flight, paused, half-way through a join — leaves the workflow status as it was or
+    moves it to `canceling`/`canceled`; it never fails the workflow through the unreachable-join
+    check (whether the call returns or raises) -/
+theorem C10_cancel_request_never_fails (req : Status) (hreq : req = .canceling ∨ req = .canceled) (c : Cond) :
+    (requestStatus req c).2.st.status = c.st.status ∨ (requestStatus req c).2.st.status = .canceling ∨
+    (requestStatus req c).2.st.status = .canceled := by
+  have h : Rel (closedPre fun s => s = c.st.status ∨ s = .canceling ∨ s = .canceled) (requestStatus req) := by
+    unfold requestStatus
+    repeat' (first
+      | exact Rel.pure _ | exact Rel.throw _ | exact Rel.get
+      | exact Rel.closed_of_keep (tkProcessWorkflowEvent_keep _ _)
+      | exact wfProcessWorkflowEvent_cancel _ _ hreq
+      | apply Rel.bind | apply Rel.forEach
+      | intro _ | split | dsimp only)
+  exact h.run c (Or.inl rfl)
+
+theorem wfProcessTaskEvent_canceling (k : TaskKey) (ev : Status) :
+    Rel (closedPre fun s => s = .canceling ∨ s = .canceled) (wfProcessTaskEvent k ev) := by
+  constructor
+  intro c hs
+  show _ ∨ _
+  unfold wfProcessTaskEvent
+  dsimp only
+  generalize taskEventSummary ev _ _ _ _ _ _ _ _ = sm
+  obtain ⟨rem, act, oc⟩ := sm
+  dsimp only
+  cases hw : wfOnTaskEvent c.st.status ev rem act oc with
+  | raise e => exact hs
+  | ok s' =>
+    obtain ⟨h1, h2⟩ := tbl_canceling_reports_never_fail _ _ _ _ _ _ hs hw
+    dsimp only
+    rw [if_neg]
+    · exact h1
+    · rw [h2]
+      simp
+
+/-- **C10**: while the workflow is `canceling` or `canceled`, the workflow machine's answer to any
+    task report keeps it there -/
+theorem C10_reports_keep_canceling (k : TaskKey) (ev : Status) (c : Cond)
+    (h : c.st.status = .canceling ∨ c.st.status = .canceled) :
+    (wfProcessTaskEvent k ev c).2.st.status = .canceling ∨ (wfProcessTaskEvent k ev c).2.st.status = .canceled :=
+  (wfProcessTaskEvent_canceling k ev).run c h
+
 end Orq
